@@ -1,6 +1,7 @@
 (* Props/C04.v -- The set of constraint edges is exactly what the caller asked for (partial: counting and non-crossing). *)
 From Coq Require Import ZArith List Bool Arith.
 From SpadeV Require Import Geom.Pred Geom.Lemmas Obs.State Obs.Spec Obs.SpecProp Obs.SpecProofs.
+From SpadeV Require Cdt.SegSpec Cdt.SegSpecProofs.
 
 Theorem C04_noncrossing_checker_is_spec : forall s pts,
   constraints_noncrossing s pts = true <-> ConstraintsNonCrossing s pts.
@@ -12,5 +13,11 @@ Proof. intros s. unfold ncons_ok. apply Nat.eqb_eq. Qed.
 Theorem C04_crossing_is_symmetric : forall a b c d : pnt, proper_cross a b c d = proper_cross c d a b.
 Proof. exact proper_cross_sym. Qed.
 
+(* the independent set-of-segments model stays non-crossing for every history; a refused addition changes nothing *)
+Theorem C04_model_noncrossing_reachable : forall ops, SegSpecProofs.NonCrossing (fold_left SegSpecProofs.sstep ops nil).
+Proof. exact SegSpecProofs.noncrossing_reachable. Qed.
+Theorem C04_refused_addition_changes_nothing : forall verts r a b, SegSpec.blocked r a b = true -> SegSpec.add_constraint verts r a b = r.
+Proof. exact SegSpecProofs.add_constraint_refused. Qed.
+Print Assumptions C04_model_noncrossing_reachable.
 Print Assumptions C04_noncrossing_checker_is_spec.
 Print Assumptions C04_ncons_checker.
